@@ -117,6 +117,8 @@ class HEXline(object):
             self.address = int(line[3:7], 16)
             self.HEXcode = int(line[7:9], 16)
             c = 9 + 2 * self.count
+            # the byte count must be the number of data bytes present:
+            assert len(line) == c + 2
             self.data = codecs.decode(line[9:c], "hex")
             s = codecs.decode(line[1:-2], "hex")
             if isinstance(s, str):
@@ -124,22 +126,22 @@ class HEXline(object):
             cksum = -(sum(s) & 0xFF)
             self.cksum = cksum & 0xFF
             assert self.cksum == int(line[-2:], 16)
+            v = codecs.encode(self.data, "hex")
+            if self.HEXcode == ExtendedSegmentAddress:
+                assert self.count == 2
+                self.base = int(v, 16)
+            if self.HEXcode == StartSegmentAddress:
+                assert self.count == 4
+                self.cs = int(v[:4], 16)
+                self.ip = int(v[4:], 16)
+            if self.HEXcode == ExtendedLinearAddress:
+                assert self.count == 2
+                self.ela = int(v, 16)
+            if self.HEXcode == StartLinearAddress:
+                assert self.count == 4
+                self.eip = int(v, 16)
         except (AssertionError, ValueError):
             raise HEXError(line)
-        v = codecs.encode(self.data, "hex")
-        if self.HEXcode == ExtendedSegmentAddress:
-            assert self.count == 2
-            self.base = int(v, 16)
-        if self.HEXcode == StartSegmentAddress:
-            assert self.count == 4
-            self.cs = int(v[:4], 16)
-            self.ip = int(v[4:], 16)
-        if self.HEXcode == ExtendedLinearAddress:
-            assert self.count == 2
-            self.ela = int(v, 16)
-        if self.HEXcode == StartLinearAddress:
-            assert self.count == 4
-            self.eip = int(v, 16)
 
     def pack(self):
         s = b":%02X%04X%02X" % (self.count, self.address, self.HEXcode)
